@@ -290,6 +290,32 @@ def checkEnd (m : CMod) (s : St) : St :=
     else { s with f := { s.f with endPoint := s.f.endPoint - 1 } }
   else s
 
+/-- `while (p->ord < mod->len && mod->xxo[p->ord] >= mod->pat) p->ord++;` of
+`xmp_start_player`; `ord` only grows up to `len`, fuel `len - ord` suffices
+(`startSkip_exit` in XmpProofs/Control). -/
+def startSkip (m : CMod) : Nat → Int → Int
+  | 0, ord => ord
+  | fuel + 1, ord =>
+    if ord < m.len ∧ m.xxoAt ord ≥ m.pat then startSkip m fuel (ord + 1) else ord
+
+/-- What a successful `xmp_start_player` establishes in the sequencing state (on a loaded or on
+a playing context: the latter ends the player first, which does not touch these fields):
+sequence 0, position 0 with the leading pattern-less orders skipped in `ord`, row 0, frame -1,
+loop count 0, tempo data of that order, a reset flow state.  `speed` survives from the previous
+run when the scan recorded speed 0.  Not modelled: the `mod->len = 0` mutation when no order
+holds a pattern (a module that loaded has one), mixer/voice set-up, the error returns. -/
+def xmpStartPlayer (m : CMod) (s : St) : St :=
+  let ord := startSkip m (skipFuel m) 0
+  let s1 : St := { s with playing := true, pos := 0, ord := ord, frame := -1, row := 0, time := 0,
+                          loopCount := 0, sequence := 0 }
+  let s2 : St :=
+    if ord ≥ m.len ∨ m.len = 0 then
+      { s1 with ord := 0, row := 0, f := { s1.f with endPoint := 0, numRows := 0 } }
+    else
+      { s1 with f := { s1.f with numRows := m.rowsOf (m.xxoAt ord), endPoint := (m.seqAt 0).scanNum } }
+  let s3 := updateFromOrdInfo m s2
+  { s3 with f := resetFlow s3.f }
+
 /-- Result of the modelled part of `xmp_play_frame`: return code, the state right after the
 reposition block (`mid`, only when a reposition was consumed) and the state when `read_row`
 is about to run (after `check_end_of_module` if this is the first tick of a row). -/
